@@ -179,6 +179,20 @@ exprconvert(struct expr *e, struct type *t)
 	return mkexpr(EXPRCAST, t, e);
 }
 
+/*
+the value of an operand that an operator hands on unchanged: it no
+longer designates the object, bit-field or array the operand did
+*/
+static struct expr *
+exprvalue(struct expr *e)
+{
+	if (e->kind == EXPRBITFIELD)
+		e = mkexpr(EXPRCAST, e->type, e);
+	e->lvalue = false;
+	e->decayed = false;
+	return e;
+}
+
 static bool
 nullpointer(struct expr *e)
 {
@@ -855,7 +869,7 @@ builtinfunc(struct scope *s, enum builtinkind kind)
 	case BUILTINEXPECT:
 		/* just a no-op for now */
 		/* TODO: check that the expression and the expected value have type 'long' */
-		e = assignexpr(s);
+		e = exprvalue(assignexpr(s));
 		expect(TCOMMA, "after expression");
 		delexpr(assignexpr(s));
 		break;
@@ -1117,6 +1131,7 @@ unaryexpr(struct scope *s)
 			error(&tok.loc, "operand of unary '+' operator must have arithmetic type");
 		if (e->type->prop & PROPINT)
 			e = exprpromote(e);
+		e = exprvalue(e);
 		break;
 	case TSUB:
 		next();
@@ -1346,7 +1361,7 @@ condexpr(struct scope *s)
 	}
 	e = eval(e);
 	if (e->kind == EXPRCONST && e->type->prop & PROPINT)
-		return exprconvert(e->u.constant.u ? l : r, t);
+		return exprvalue(exprconvert(e->u.constant.u ? l : r, t));
 	e = mkexpr(EXPRCOND, t, e);
 	e->u.cond.t = l;
 	e->u.cond.f = r;
